@@ -4,7 +4,8 @@ import Mathlib.Algebra.Order.BigOperators.Group.LocallyFinite
 import Mathlib.Order.Interval.Finset.Nat
 import Mathlib.Tactic.Linarith
 import Mathlib.Tactic.Positivity
-import PyPhysim.Proofs.C20GmdInvAlg
+import PyPhysim.Proofs.C20GmdStep
+import PyPhysim.Proofs.C20GmdInvSw
 
 /-!
 # `gmd` — the bookkeeping part of the loop invariant
